@@ -127,6 +127,19 @@ Section Reg.
                  end
     end.
 
+  (* everything that can be read from an object by following references: its tree unfolding *)
+  Inductive tree : Type :=
+  | Node (cls : string) (sc : Sc) (kids : list tree)
+  | Cut.                         (* out of fuel / dangling reference *)
+  Fixpoint unfold (fuel : nat) (h : heap) (a : addr) : tree :=
+    match fuel with
+    | O => Cut
+    | S f => match alookup a h with
+             | Some o => Node (o_cls o) (o_scal o) (map (unfold f h) (o_refs o))
+             | None => Cut
+             end
+    end.
+
   (* ---- canonical form of a rooted graph (used by the correspondence check) ---- *)
   Fixpoint dfs_order (fuel : nat) (h : heap) (a : addr) (seen : list addr) : list addr :=
     match fuel with
@@ -151,7 +164,7 @@ End Reg.
 Arguments to_reg {Sc}. Arguments to_registry {Sc}. Arguments from_reg {Sc}. Arguments from_registry {Sc}.
 Arguments l_heap {Sc}. Arguments l_loaded {Sc}. Arguments l_next {Sc}. Arguments mkl {Sc}.
 Arguments reachable {Sc}. Arguments reach_root {Sc}. Arguments reach_step {Sc}. Arguments edge {Sc}. Arguments iso {Sc}. Arguments follow {Sc}.
-Arguments canon {Sc}. Arguments dfs_order {Sc}. Arguments thread_ctx {Sc}. Arguments thread_load {Sc}.
+Arguments unfold {Sc}. Arguments canon {Sc}. Arguments dfs_order {Sc}. Arguments thread_ctx {Sc}. Arguments thread_load {Sc}.
 
 (* ------------------------------------------------------------------------------------------ *)
 (* correspondence: the real _to_registry / from_json against this model                       *)
